@@ -146,11 +146,11 @@ fn convert(json_text: &str) -> Result<cgt_converter::ConvertOutput, String> {
     }
 }
 
-const D16: &str = "D16: an NRA Withholding / NRA Tax Adj row with no dividend row on its date and symbol, and a dividend row with a blank amount, leave no line, no comment, no warning and are not counted as skipped";
+const D16: &str = "D16 (what is left of it): an NRA Withholding / NRA Tax Adj row without a symbol leaves no line, no comment, no warning and is not counted as skipped";
 
 pub fn run(ctx: &mut Ctx) {
     let prop = "C18";
-    ctx.ev.rule = "generated Schwab exports (Buy/Sell with $, comma, blank and '--' spellings and 'as of' dates; duplicate sells; Cancel Sell before/after its sell or with no sell; four dividend actions with negative/blank amounts; withholding rows matching a dividend, orphaned, or without symbol; Stock Split; eight non-CGT actions; unknown actions whose Description contains newlines, CR, '#', DSL-looking text, or up to 200 characters of mixed 1–4-byte text). Oracles on the real converter: every emitted line parses with the real DSL parser (whatever the free text contains) and dated lines are chronological; the emitted item list equals the Lean model's (which is proved to keep each Buy/Sell row once, remove exactly one sell per matched cancel, aggregate same-day withholding, count the rest); rows shuffled → same multiset of lines; export cut into date-disjoint chunks → union of the chunks' lines equals the whole's. Known-finding class orphanWithholdingOrBlankDividend (D16). Non-trivial = exports with a cancel, a withholding row or an unknown row; distinct by JSON text.".into();
+    ctx.ev.rule = "generated Schwab exports (Buy/Sell with $, comma, blank and '--' spellings and 'as of' dates; duplicate sells; Cancel Sell before/after its sell or with no sell; four dividend actions with negative/blank amounts; withholding rows matching a dividend, orphaned, or without symbol; Stock Split; eight non-CGT actions; unknown actions whose Description contains newlines, CR, '#', DSL-looking text, or up to 200 characters of mixed 1–4-byte text). Oracles on the real converter: every emitted line parses with the real DSL parser (whatever the free text contains) and dated lines are chronological; the emitted item list equals the Lean model's (which is proved to keep each Buy/Sell row once, remove exactly one sell per matched cancel, aggregate same-day withholding, count the rest); rows shuffled → same multiset of lines; export cut into date-disjoint chunks → union of the chunks' lines equals the whole's. Independent count: comments and skipped count against the rows that yield no line (unattached withholding, blank dividends, splits, unknown, non-CGT). Known-finding class symbollessWithholding (what is left of D16). Non-trivial = exports with a cancel, a withholding row or an unknown row; distinct by JSON text.".into();
     let mut r = Rng::new(ctx.seed ^ 0xC18);
     for i in 0..ctx.n(500, 30_000) {
         ctx.ev.evaluations += 1;
@@ -225,9 +225,29 @@ pub fn run(ctx: &mut Ctx) {
             // warnings: unknown rows + unmatched cancels (+1 if RSU without awards: none generated)
             if let Some(w) = t.get(2).and_then(|s| s.parse::<usize>().ok()) { if w != out.warnings.len() { ctx.ev.violation("correspondence", format!("warnings: impl {} vs model {w}", out.warnings.len()), case.clone()); } }
         }
-        // D16: rows that vanish
-        let orphan = rows.iter().any(|x| match x { GRow::Nra { d, sym, amt, .. } => amt.is_some() && !rows.iter().any(|y| matches!(y, GRow::Dividend { d: dd, sym: ss, amt: Some(_), .. } if dd == d && Some(ss) == sym.as_ref())), GRow::Dividend { amt: None, .. } => true, _ => false });
-        if orphan { ctx.ev.known("orphanWithholdingOrBlankDividend", D16); }
+        // every row that yields no line is counted and surfaced (independent of the model): Stock Split,
+        // unknown, blank-amount dividend and unattached withholding rows each leave one comment; those and the
+        // non-CGT rows each raise the skipped count; unknown, blank-dividend and unattached-withholding rows
+        // each raise a warning (plus one per unmatched cancel). Withholding rows WITHOUT a symbol are the
+        // known finding D16 (class symbollessWithholding): they leave nothing
+        {
+            let has_div = |d: &NaiveDate, s: &String| rows.iter().any(|y| matches!(y, GRow::Dividend { d: dd, sym: ss, amt: Some(_), .. } if dd == d && ss == s));
+            let unattached = rows.iter().filter(|x| matches!(x, GRow::Nra { d, sym: Some(s), amt, .. } if !(amt.is_some() && has_div(d, s)))).count();
+            let blank_div = rows.iter().filter(|x| matches!(x, GRow::Dividend { amt: None, .. })).count();
+            let splits = rows.iter().filter(|x| matches!(x, GRow::Split { .. })).count();
+            let unknown = rows.iter().filter(|x| matches!(x, GRow::Unknown { .. })).count();
+            let noncgt = rows.iter().filter(|x| matches!(x, GRow::NonCgt { .. })).count();
+            let want_comments = unattached + blank_div + splits + unknown;
+            let got_comments = items.iter().filter(|x| x.as_str() == "C").count();
+            if got_comments != want_comments {
+                ctx.ev.violation("oracle", format!("{want_comments} rows yield no line ({unattached} withholding rows with no dividend to carry them, {blank_div} dividends without an amount, {splits} stock splits, {unknown} unknown actions) but {got_comments} comment(s) say so"), case.clone());
+            }
+            if out.skipped_count != want_comments + noncgt {
+                ctx.ev.violation("oracle", format!("skipped count {} but {} rows yield no line", out.skipped_count, want_comments + noncgt), case.clone());
+            }
+            let symbolless = rows.iter().any(|x| matches!(x, GRow::Nra { sym: None, .. }));
+            if symbolless { ctx.ev.known("symbollessWithholding", D16); }
+        }
         // row order independence
         {
             let mut sh = rows.clone();
